@@ -302,7 +302,13 @@ fn st_cases(e: &mut Env, rng: &mut Rng, n: u64) {
     let base = if rng.chance(1, 2) { 0 } else { rng.below(1u64 << dt) };
     let nslots = (1u64 << (dt + 1)).min(8).min((1u64 << (dt + 1)) - base.min((1u64 << (dt + 1)) - 1));
     let a = gen_stmoc(rng, dt, ds, nslots.max(1), base, 3, 2);
-    let b = gen_stmoc(rng, dt, ds, nslots.max(1), base, 3, 2);
+    // the right operand has the same depths, or is deeper / shallower on either dimension (same
+    // region of the time axis: slot numbers scaled), so that its borders cut into the left one's cells
+    let (ddt, dds) = if rng.chance(1, 2) { (0i32, 0i32) } else { (rng.range(0, 2) as i32 - if dt > 0 && rng.chance(1, 4) { 1 } else { 0 }, rng.range(0, 2) as i32 - if ds > 0 && rng.chance(1, 4) { 1 } else { 0 }) };
+    let dt2 = (dt as i32 + ddt).clamp(0, 61) as u8;
+    let ds2 = (ds as i32 + dds).clamp(0, 29) as u8;
+    let (base2, nslots2) = if dt2 >= dt { (base << (dt2 - dt), (nslots.max(1) << (dt2 - dt)).min(16)) } else { (base >> (dt - dt2), (nslots.max(1) >> (dt - dt2)).max(1)) };
+    let b = gen_stmoc(rng, dt2, ds2, nslots2, base2, 3, 2);
     let (pa, pb) = (e.p("left_stmoc.fits"), e.p("right_stmoc.fits"));
     std::fs::write(&pa, st_fits(&a)).unwrap();
     std::fs::write(&pb, st_fits(&b)).unwrap();
